@@ -44,14 +44,19 @@ pub struct GenCfg {
     pub cycle_rich: bool,
     /// largest number of given depots (several may share a location)
     pub max_depots: usize,
+    /// one case in about thirty gets a "giant formation": a segment that needs more than 100
+    /// vehicles (100 is the solver's stand-in for an unbounded formation), with type / segment
+    /// limits absent or beyond 100. At most three departures and no maintenance slots then, so
+    /// that the search stays fast.
+    pub giant: bool,
 }
 
 impl GenCfg {
     pub const fn quick() -> GenCfg {
-        GenCfg { max_departures: 8, max_slots: 3, force_slots: false, heavy_demand: false, max_need: 6, max_total_need: 22, single_type: false, small_grid: false, cycle_rich: false, max_depots: 5 }
+        GenCfg { max_departures: 8, max_slots: 3, force_slots: false, heavy_demand: false, max_need: 6, max_total_need: 22, single_type: false, small_grid: false, cycle_rich: false, max_depots: 5, giant: false }
     }
     pub const fn thorough() -> GenCfg {
-        GenCfg { max_departures: 16, max_slots: 4, force_slots: false, heavy_demand: false, max_need: 6, max_total_need: 36, single_type: false, small_grid: false, cycle_rich: false, max_depots: 12 }
+        GenCfg { max_departures: 16, max_slots: 4, force_slots: false, heavy_demand: false, max_need: 6, max_total_need: 36, single_type: false, small_grid: false, cycle_rich: false, max_depots: 12, giant: false }
     }
 }
 
@@ -371,6 +376,49 @@ pub fn decode_inst(t: &Tape, cfg: &GenCfg, prefix: &str) -> Inst {
         Some(out)
     };
 
+    // ---- giant formation (rare)
+    let mut types = types;
+    let mut routes = routes;
+    let mut departures = departures;
+    let mut depots = depots;
+    let mut slots = slots;
+    if cfg.giant && pick_w(f(p, 22), &[30, 1]) == 1 {
+        departures.truncate(3);
+        // no maintenance slots: with them the local search on > 100 vehicles takes minutes
+        if let Some(sl) = slots.as_mut() {
+            sl.clear();
+        }
+        let g = f(p, 23);
+        let rid = departures[0].route.clone();
+        let sid = departures[0].segs[0].rseg.clone();
+        let route = routes.iter_mut().find(|r| r.id == rid).unwrap();
+        let vt = types.iter_mut().find(|x| x.id == route.vtype).unwrap();
+        vt.max_form = choose(g, &[None, None, Some(104u64), Some(128)]);
+        let rs = route.segs.iter_mut().find(|x| x.id == sid).unwrap();
+        rs.max_form = choose(g << 3, &[None, Some(110u64), Some(150), Some(101)]);
+        let need = choose(g << 6, &[101u64, 105, 120, 131]);
+        let ds = &mut departures[0].segs[0];
+        if pick(g << 9, 2) == 0 {
+            ds.passengers = need * vt.capacity - (g as u64 % vt.capacity.max(1)).min(vt.capacity - 1);
+            ds.seated = ds.seated.min(vt.seats);
+        } else {
+            // the seats decide
+            ds.passengers = vt.capacity;
+            ds.seated = need * vt.seats;
+        }
+        // room for the fleet: default depots, or every given depot wide open
+        if pick(g << 10, 2) == 0 {
+            depots = None;
+        } else if let Some(ds) = depots.as_mut() {
+            for d in ds.iter_mut() {
+                d.capacity = 70_000;
+                for a in d.allowed.iter_mut() {
+                    a.1 = None;
+                }
+            }
+        }
+    }
+
     Inst {
         types,
         locs,
@@ -514,6 +562,12 @@ pub fn inst_classes(fl: &Flat) -> Vec<&'static str> {
         if ds.len() >= 3 && ds.iter().all(|d| d.capacity <= 1) {
             c.push("tiny_depots");
         }
+    }
+    if fl.segs.iter().any(|s| s.need > 100) {
+        c.push("giant_formation_need>100");
+    }
+    if fl.segs.iter().any(|s| s.need > 100 && s.lim.map(|l| l > 100 && s.need > l).unwrap_or(false)) {
+        c.push("giant_formation_cut_by_limit>100");
     }
     if inst.day_limits.iter().any(|d| d.is_some()) {
         c.push("day_limit_present");
